@@ -320,6 +320,109 @@ fn default_fill(rep: &mut Report, shard: u64, nshards: u64) {
     }
 }
 
+/// "...and for any database regenerated by rbx_reflector": a copy of the bundled database with one more serializes-as pair
+/// on Folder is handed to both codecs through their public options, in every order the option builders allow. The
+/// codecs must use THAT database (wire name, canonical name on the way back, no "unknown property") and the order in
+/// which options are chained must not matter.
+fn custom_database(rep: &mut Report) {
+    use rbx_reflection::{DataType as DT, PropertyDescriptor, PropertyKind as PK, PropertySerialization as PS};
+    let mut db2 = rbx_reflection_database::get().clone();
+    {
+        let folder = db2.classes.get_mut("Folder").expect("Folder");
+        let mut canon_d = PropertyDescriptor::new("VerifProp", DT::Value(VariantType::String));
+        canon_d.kind = PK::Canonical { serialization: PS::SerializesAs("verif_prop_wire".into()) };
+        let mut alias_d = PropertyDescriptor::new("verif_prop_wire", DT::Value(VariantType::String));
+        alias_d.kind = PK::Alias { alias_for: "VerifProp".into() };
+        folder.properties.insert("VerifProp".into(), canon_d);
+        folder.properties.insert("verif_prop_wire".into(), alias_d);
+        folder.default_properties.insert("VerifProp".into(), Variant::String("dflt".into()));
+    }
+    let dom = WeakDom::new(
+        InstanceBuilder::new("DataModel")
+            .with_child(InstanceBuilder::new("Folder").with_name("a").with_property("VerifProp", Variant::String("custom-db-value".into())))
+            .with_child(InstanceBuilder::new("Folder").with_name("b")),
+    );
+    let roots = dom.root().children().to_vec();
+    let replay = json!({"cmd": "c16", "part": "custom-database"});
+    let mut bad = |rep: &mut Report, sig: &str, what: String| rep.violation(&format!("C16:custom-database:{}", sig), &what, replay.clone(), J::Null);
+    let contains = |hay: &[u8], needle: &[u8]| hay.windows(needle.len()).any(|w| w == needle);
+    // ---- binary, both chain orders x three compression types
+    for c in [rbx_binary::CompressionType::None, rbx_binary::CompressionType::Lz4, rbx_binary::CompressionType::Zstd] {
+        rep.evaluations += 1;
+        rep.count("custom_database.binary_chains");
+        let run = |first_db: bool| -> Result<Result<Vec<u8>, String>, crate::report::PanicInfo> {
+            catch(|| {
+                let s = if first_db { rbx_binary::Serializer::new().reflection_database(&db2).compression_type(c) } else { rbx_binary::Serializer::new().compression_type(c).reflection_database(&db2) };
+                let mut v = vec![];
+                s.serialize(&mut v, &dom, &roots).map_err(|e| e.to_string())?;
+                Ok(v)
+            })
+        };
+        match (run(true), run(false)) {
+            (Ok(Ok(a)), Ok(Ok(b))) => {
+                if a != b {
+                    bad(rep, "binary:option-order", format!("Serializer: reflection_database().compression_type({:?}) gives {} bytes, the other order {} bytes", c, a.len(), b.len()));
+                }
+                if c == rbx_binary::CompressionType::None && (!contains(&a, b"verif_prop_wire") || !contains(&b, b"verif_prop_wire")) {
+                    bad(rep, "binary:not-used", "the custom database's serialized name does not appear in the file: the writer fell back to another database".into());
+                }
+                let back = catch(|| rbx_binary::Deserializer::new().reflection_database(&db2).deserialize(&a[..]).map_err(|e| e.to_string()));
+                match back {
+                    Ok(Ok(d)) => {
+                        let kids = d.root().children().to_vec();
+                        let get = |i: usize| kids.get(i).and_then(|r| d.get_by_ref(*r)).and_then(|x| x.properties.get(&rbx_dom_weak::ustr("VerifProp")).cloned());
+                        if get(0) != Some(Variant::String("custom-db-value".into())) || get(1) != Some(Variant::String("dflt".into())) {
+                            bad(rep, "binary:read-back", format!("with the custom database on both sides VerifProp reads back as {:?} / {:?}", get(0), get(1)));
+                        }
+                    }
+                    Ok(Err(e)) => bad(rep, "binary:read-error", e),
+                    Err(p) => bad(rep, "binary:read-panic", p.msg),
+                }
+            }
+            (x, y) => bad(rep, "binary:write", format!("{:?} / {:?}", x.map(|r| r.map(|v| v.len())).map_err(|p| p.msg), y.map(|r| r.map(|v| v.len())).map_err(|p| p.msg))),
+        }
+    }
+    // ---- XML, both chain orders x the three behaviours
+    use rbx_xml::{DecodeOptions, DecodePropertyBehavior as D, EncodeOptions, EncodePropertyBehavior as E};
+    for (e, dmode) in [(E::ErrorOnUnknown, D::ErrorOnUnknown), (E::IgnoreUnknown, D::IgnoreUnknown), (E::WriteUnknown, D::ReadUnknown)] {
+        rep.evaluations += 1;
+        rep.count("custom_database.xml_chains");
+        let run = |first_db: bool| -> Result<Result<Vec<u8>, String>, crate::report::PanicInfo> {
+            catch(|| {
+                let o = if first_db { EncodeOptions::new().reflection_database(&db2).property_behavior(e) } else { EncodeOptions::new().property_behavior(e).reflection_database(&db2) };
+                let mut v = vec![];
+                rbx_xml::to_writer(&mut v, &dom, &roots, o).map_err(|e| e.to_string())?;
+                Ok(v)
+            })
+        };
+        match (run(true), run(false)) {
+            (Ok(Ok(a)), Ok(Ok(b))) => {
+                if a != b {
+                    bad(rep, "xml:option-order", format!("EncodeOptions: reflection_database().property_behavior({:?}) and the other order give different documents", e));
+                }
+                if !contains(&a, b"verif_prop_wire") || !contains(&b, b"verif_prop_wire") {
+                    bad(rep, "xml:not-used", format!("the custom database's serialized name does not appear in the document ({:?}): the writer fell back to another database", e));
+                }
+                for first_db in [true, false] {
+                    let o = if first_db { DecodeOptions::new().reflection_database(&db2).property_behavior(dmode) } else { DecodeOptions::new().property_behavior(dmode).reflection_database(&db2) };
+                    match catch(|| rbx_xml::from_reader(&a[..], o).map_err(|e| e.to_string())) {
+                        Ok(Ok(d)) => {
+                            let kid = d.root().children().first().and_then(|r| d.get_by_ref(*r));
+                            let got = kid.and_then(|x| x.properties.get(&rbx_dom_weak::ustr("VerifProp")).cloned());
+                            if got != Some(Variant::String("custom-db-value".into())) {
+                                bad(rep, "xml:read-back", format!("DecodeOptions (database first: {}) {:?}: VerifProp reads back as {:?}", first_db, dmode, got));
+                            }
+                        }
+                        Ok(Err(er)) => bad(rep, "xml:read-error", format!("DecodeOptions (database first: {}) {:?}: {}", first_db, dmode, er)),
+                        Err(p) => bad(rep, "xml:read-panic", p.msg),
+                    }
+                }
+            }
+            (x, y) => bad(rep, "xml:write", format!("{:?}: {:?} / {:?}", e, x.map(|r| r.map(|v| v.len())).map_err(|p| p.msg), y.map(|r| r.map(|v| v.len())).map_err(|p| p.msg))),
+        }
+    }
+}
+
 /// Every (class, own descriptor name) once through the writers' and readers' lookup paths.
 fn lookups(rep: &mut Report, shard: u64, nshards: u64) {
     let db = dbwalk::db();
@@ -518,6 +621,7 @@ pub fn main(a: &Args) {
     if shard == 0 {
         structural(&mut rep);
         lua_copy(&mut rep, &repo);
+        custom_database(&mut rep);
     }
     default_instances(&mut rep, shard, nshards);
     default_fill(&mut rep, shard, nshards);
